@@ -76,6 +76,16 @@ The translation scheme
     how Python evaluates it.
   * Comprehensions: `[e for x in xs]` -> `map`, any other list / set comprehension (several `for`, `if` clauses) ->
     nested `flat_map` (+ `py_set_of` for a set); only the first iterable may contain a call that can raise.
+  * Logging.  At module level `import logging` and `<name> = logging.getLogger(__name__ | <constant>)` are accepted;
+    a statement `<name>.debug/info/warning/error/critical(...)` is translated to NOTHING (a comment), provided every
+    argument is obviously free of effects and cannot raise: defined names, constants, known attribute reads,
+    `len(<list/set name>)`, tuples and f-strings of such, and `'<constant>' % (...)` with a matching number of
+    %s / %r conversions (%d / %i only for len(..), integer constants, integer / boolean names).  Any other use of a
+    logger (other methods, other arguments, rebinding it, passing it on) is refused.
+  * Set operators `a | b`, `a & b`, `a - b` are translated to the SAME terms as `a.union(b)`, `a.intersection(b)`,
+    `a.difference(b)` (py_union / py_inter / py_diff); both operands must be sets of identifiers (one of them may be
+    of a kind that is only known to Coq).  Annotated assignments `x: T = e` are ordinary assignments (T is ignored,
+    also inside nested functions).
   * Graph kinds.  The functions that call `_verify_identify_inputs` only work on DAGs: their CausalGraph is a
     `digraph A`.  The functions of MIXED_GRAPH_FUNCTIONS (identify_colliders) accept arbitrary edge types: their
     CausalGraph is an `mgraph A` (nodes + typed edges) and only the mixed-graph rows of the PyRt table apply.
@@ -115,8 +125,10 @@ GEN_PARAMS = '{A : Type} (eqb : A -> A -> bool) (py_None py_empty_str : A) (py_o
 GEN_ARGS = 'eqb py_None py_empty_str py_order'
 
 # expected imports (anything else at module level is refused)
+LOG_METHODS = {'debug', 'info', 'warning', 'error', 'critical'}
+
 ALLOWED_IMPORTS = {
-    ('import', 'networkx'),
+    ('import', 'networkx'), ('import', 'logging'),
     ('from', 'itertools'), ('from', 'typing'), ('from', 'cai_causal_graph'), ('from', 'cai_causal_graph.exceptions'),
     ('from', 'cai_causal_graph.graph_components'), ('from', 'cai_causal_graph.type_definitions'),
 }
@@ -247,6 +259,7 @@ class Translator:
         self.order = []
         self.tmp = 0
         self.failures = {}        # target / nested function -> reason (the first one)
+        self.loggers = set()      # module-level names bound to logging.getLogger(...)
 
     # ------------------------------------------------------------------------------------------------ module level
     def scan_module(self):
@@ -270,9 +283,34 @@ class Translator:
                 if st.name in seen:
                     raise Unsupported(st, f'function {st.name} defined twice')
                 seen.add(st.name)
+            elif self.is_logger_binding(st):
+                self.loggers.add(st.targets[0].id)
             else:
                 raise Unsupported(st, f'unsupported module-level statement {type(st).__name__}')
-        return {st.name: st for st in body if isinstance(st, ast.FunctionDef)}
+        defs = {st.name: st for st in body if isinstance(st, ast.FunctionDef)}
+        for name in self.loggers:
+            if name in defs:
+                raise Unsupported(self.tree, f'{name} is both a logger and a function')
+        # a logger must not be rebound or passed around inside a function: it may only receive logging calls
+        for fn in defs.values():
+            for n in ast.walk(fn):
+                if isinstance(n, ast.arg) and n.arg in self.loggers:
+                    raise Unsupported(n, f'parameter {n.arg} shadows a logger')
+                if isinstance(n, ast.Name) and n.id in self.loggers and not isinstance(n.ctx, ast.Load):
+                    raise Unsupported(n, f'the logger {n.id} is rebound')
+        return defs
+
+    @staticmethod
+    def is_logger_binding(st):
+        """`<name> = logging.getLogger(<constant or __name__>)` at module level"""
+        if not (isinstance(st, ast.Assign) and len(st.targets) == 1 and isinstance(st.targets[0], ast.Name)):
+            return False
+        v = st.value
+        if not (isinstance(v, ast.Call) and isinstance(v.func, ast.Attribute) and v.func.attr == 'getLogger'
+                and isinstance(v.func.value, ast.Name) and v.func.value.id == 'logging' and not v.keywords):
+            return False
+        return all(isinstance(a, ast.Constant) or (isinstance(a, ast.Name) and a.id == '__name__') for a in v.args) \
+            and len(v.args) <= 1
 
     def drop(self, name, why):
         """Record the failure of a function and forget it (with the functions nested in it, and the function it is
@@ -599,13 +637,17 @@ class Translator:
             return self.compare(e, env, fx)
         if isinstance(e, (ast.ListComp, ast.SetComp)):
             return self.comprehension(e, env, fx)
-        if isinstance(e, ast.BinOp) and isinstance(e.op, ast.BitOr):
+        if isinstance(e, ast.BinOp) and isinstance(e.op, (ast.BitOr, ast.BitAnd, ast.Sub)):
+            # the set operators are translated to the SAME terms as .union / .intersection / .difference
             a, ka, _ = self.expr(e.left, env, fx)
             b, kb, _ = self.expr(e.right, env, fx)
-            if ka[0] != 'set' or kb[0] != 'set' or elem_of(ka) not in (NODE, UNKNOWN) \
-                    or elem_of(kb) not in (NODE, UNKNOWN):
-                raise Unsupported(e, '| is only supported between sets of identifiers')
-            return f'py_union eqb {self.atom(a)} {self.atom(b)}', SET(NODE), True
+            sym, fn = {ast.BitOr: ('|', 'py_union'), ast.BitAnd: ('&', 'py_inter'), ast.Sub: ('-', 'py_diff')}[type(e.op)]
+            # one operand may be of unknown kind (an element of a list whose element kind was only learnt inside a
+            # loop); the generated term is type-checked by Coq, where both operands must be lists of identifiers
+            if ka[0] not in ('set', 'unknown') or kb[0] not in ('set', 'unknown') or (ka == UNKNOWN and kb == UNKNOWN) \
+                    or elem_of(ka) not in (NODE, UNKNOWN) or elem_of(kb) not in (NODE, UNKNOWN):
+                raise Unsupported(e, f'{sym} is only supported between sets of identifiers')
+            return f'{fn} eqb {self.atom(a)} {self.atom(b)}', SET(NODE), True
         if isinstance(e, ast.Call):
             return self.call(e, env, fx, hint)
         if isinstance(e, ast.Attribute):
@@ -1000,6 +1042,8 @@ class Translator:
             return self.block(rest, env, ctx)
         if isinstance(st, (ast.Assign, ast.AnnAssign)):
             return cm + '\n' + self.assign(st, rest, env, ctx)
+        if isinstance(st, ast.Expr) and self.is_logging_call(st.value, env):
+            return cm[:-3] + '   -- logging: no effect on the computation *)\n' + self.block(rest, env, ctx)
         if isinstance(st, ast.Expr):
             return cm + '\n' + self.mutation(st, rest, env, ctx)
         if isinstance(st, ast.Return):
@@ -1019,6 +1063,69 @@ class Translator:
         if isinstance(st, ast.For):
             return cm + '\n' + self.for_(st, rest, env, ctx)
         raise Unsupported(st, f'unsupported statement {type(st).__name__}')
+
+    def is_logging_call(self, e, env):
+        """`<logger>.debug/info/warning/error/critical(...)` whose arguments cannot raise or change anything: the
+        statement is translated to nothing.  A logging call with any other argument is refused."""
+        if not (isinstance(e, ast.Call) and isinstance(e.func, ast.Attribute) and isinstance(e.func.value, ast.Name)
+                and e.func.value.id in self.loggers and e.func.value.id not in env):
+            return False
+        if e.func.attr not in LOG_METHODS:
+            raise Unsupported(e, f'unsupported use of the logger: .{e.func.attr}')
+        for a in list(e.args) + [k.value for k in e.keywords]:
+            if isinstance(a, ast.Starred) or not self.harmless(a, env):
+                raise Unsupported(a, 'argument of a logging call that is not obviously free of effects')
+        if any(k.arg is None for k in e.keywords):
+            raise Unsupported(e, 'unsupported logging call')
+        return True
+
+    def harmless(self, a, env):
+        """Expressions that can be evaluated without raising and without changing anything: defined names,
+        constants, attribute reads of such, len(..) of a list / set, tuples, f-strings of such, and
+        '<constant>' % (...) when the number of arguments matches and every conversion is %s / %r (or %d / %i applied
+        to len(..), an integer constant or an integer / boolean name)."""
+        if isinstance(a, ast.Constant):
+            return True
+        if isinstance(a, ast.Name):
+            return isinstance(a.ctx, ast.Load) and a.id in env
+        if isinstance(a, ast.Attribute):
+            # attribute reads of the objects the translated functions handle (edges, nodes) have no effects; the
+            # attribute must be one the translator knows
+            return isinstance(a.ctx, ast.Load) and a.attr in ('identifier', 'source', 'destination', 'edge_type') \
+                and self.harmless(a.value, env)
+        if isinstance(a, ast.Tuple):
+            return all(self.harmless(x, env) for x in a.elts)
+        if isinstance(a, ast.Call):
+            if isinstance(a.func, ast.Name) and a.func.id == 'len' and 'len' not in env and len(a.args) == 1 \
+                    and not a.keywords and isinstance(a.args[0], ast.Name) and a.args[0].id in env:
+                return env[a.args[0].id].kind[0] in ('set', 'list')
+            return False
+        if isinstance(a, ast.JoinedStr):
+            for v in a.values:
+                if isinstance(v, ast.Constant):
+                    continue
+                if isinstance(v, ast.FormattedValue) and v.format_spec is None and self.harmless(v.value, env):
+                    continue
+                return False
+            return True
+        if isinstance(a, ast.BinOp) and isinstance(a.op, ast.Mod) and isinstance(a.left, ast.Constant) \
+                and isinstance(a.left.value, str):
+            import re
+            fmt = a.left.value.replace('%%', '')
+            specs = re.findall(r'%(.)', fmt)
+            args = list(a.right.elts) if isinstance(a.right, ast.Tuple) else [a.right]
+            if len(specs) != len(args):
+                return False
+            for c, x in zip(specs, args):
+                if isinstance(x, ast.Tuple) or not self.harmless(x, env):
+                    return False
+                is_int = (isinstance(x, ast.Call)                                       # len(..), checked above
+                          or (isinstance(x, ast.Constant) and isinstance(x.value, int))
+                          or (isinstance(x, ast.Name) and env[x.id].kind in (INT, BOOL)))
+                if not (c in 'sr' or (c in 'di' and is_int)):
+                    return False
+            return True
+        return False
 
     def effectful(self, e, env):
         """Does the evaluation of e need a hoisted call (something that can raise / run out of fuel)?"""
@@ -1400,9 +1507,13 @@ class Translator:
                     local.add(n.id)
             known = local | set(self.funcs) | {'set', 'list', 'len', 'enumerate', 'isinstance', 'networkx', 'Node',
                                                 'CausalGraph', 'Skeleton', 'CausalGraphErrors', 'TypeError',
-                                                'ValueError', 'KeyError'}
+                                                'ValueError', 'KeyError'} | self.loggers
+            in_annotation = set()
             for n in self.own_nodes(info):
-                if isinstance(n, ast.Name) and n.id not in known:
+                if isinstance(n, ast.AnnAssign):
+                    in_annotation.update(id(x) for x in ast.walk(n.annotation))
+            for n in self.own_nodes(info):
+                if isinstance(n, ast.Name) and n.id not in known and id(n) not in in_annotation:
                     raise Unsupported(n, f'nested function uses the non-local name {n.id}')
         stmts = self.strip_doc(info.node.body)
 
